@@ -29,8 +29,8 @@ TABLE = {
     "Mahony/MARG": [("kP=3,kI=1", {"k_P": 3.0, "k_I": 1.0}, 15000, 1.0 * DEG, "qt"), ("default", {}, 40000, 1.0 * DEG, "t")],
     "EKF/IMU/NED": [("default", {}, 3000, 0.2 * DEG, "qt")],
     "EKF/IMU/ENU": [("default", {}, 3000, 0.2 * DEG, "qt")],
-    "EKF/MARG/NED": [("default", {}, 12000, 0.3 * DEG, "qt")],
-    "EKF/MARG/ENU": [("default", {}, 12000, 0.3 * DEG, "qt")],
+    "EKF/MARG/NED": [("default", {}, 12000, 0.3 * DEG, "qt"), ("magnetic_ref=field vector", {"magnetic_ref": "ref_vector_ned"}, 12000, 0.3 * DEG, "qt")],
+    "EKF/MARG/ENU": [("default", {}, 12000, 0.3 * DEG, "qt"), ("magnetic_ref=field vector", {"magnetic_ref": "ref_vector_enu"}, 12000, 0.3 * DEG, "qt")],
     "UKF": [("default", {}, 6000, 1.0 * DEG, "qt")],
     "AQUA/IMU": [("default", {}, 4000, 0.1 * DEG, "qt")],
     "AQUA/IMU/adaptive": [("default", {}, 4000, 0.1 * DEG, "qt")],
